@@ -1554,7 +1554,7 @@ func TestVerifC23(t *testing.T) {
 		return
 	}
 	g := &c23Gen{r: vh.NewRng(vh.Seed()*1000003 + 23), h: h}
-	cases := vh.Budget(250, 6000)
+	cases := vh.Budget(250, 20000)
 	if os.Getenv("VERIF_C23_CASES") != "" {
 		cases = int(vh.U(os.Getenv("VERIF_C23_CASES")))
 	}
@@ -1592,6 +1592,7 @@ func (g *c23Gen) runCase(out *vh.Out) {
 				// create (+ fund so that the application account can hold boxes), sometimes with a call of an existing
 				// same-creator application in the same group that reaches the new application's boxes through unnamed references
 				ord := uint64(len(g.apps) + 1)
+				g.multi = true // the fund transaction shares its sender with the whole group
 				c, a := g.genCreate(ord)
 				txs := []string{fmt.Sprintf("fund,%d,%d,%d", g.user(), ord, 200000000), c}
 				fresh = append(fresh, a)
